@@ -27,26 +27,15 @@ package common
 
 // ───────────── address.go ─────────────
 //@ -- Address.String: total; a function of the two public keys only (pure: used as a map key in the node and custodian validators)
+//@ -- (C32) its value: "XIN" + base58 of spend ++ view ++ first 4 bytes of sha3("XIN" ++ spend ++ view); AddrString: zz_contracts_c32_verif.go
 //@ func (a Address) String
-//@   property C05
+//@   property C05, C32
 //@   pure
+//@   ensures [format] result == AddrString(seq(a.PublicSpendKey), seq(a.PublicViewKey))
 
 // ───────────── transaction.go ─────────────
 
-//@ func (tx *SignedTransaction) TransactionType
-//@   property C05
-//@   requires tx != nil && InputsOK(&tx.Transaction) && OutputsOK(&tx.Transaction)
-//@   modifies nothing
-//@   ensures [mint] result == TransactionTypeMint ==> exists k int :: 0 <= k && k < len(tx.Inputs) && tx.Inputs[k].Mint != nil && (forall j int :: 0 <= j && j < k ==> PlainInput(tx.Inputs[j]))
-//@   ensures [deposit] result == TransactionTypeDeposit ==> exists k int :: 0 <= k && k < len(tx.Inputs) && tx.Inputs[k].Mint == nil && tx.Inputs[k].Deposit != nil && (forall j int :: 0 <= j && j < k ==> PlainInput(tx.Inputs[j]))
-//@   ensures [plain] result != TransactionTypeMint && result != TransactionTypeDeposit && result != TransactionTypeUnknown ==> PlainInputs(&tx.Transaction)
-//@   ensures [node] PlainInputs(&tx.Transaction) && len(tx.Outputs) >= 1 ==>
-//@       (tx.Outputs[0].Type == OutputTypeNodePledge ==> result == TransactionTypeNodePledge) &&
-//@       (tx.Outputs[0].Type == OutputTypeNodeAccept ==> result == TransactionTypeNodeAccept) &&
-//@       (tx.Outputs[0].Type == OutputTypeNodeRemove ==> result == TransactionTypeNodeRemove)
-//@   loop 0 invariant forall j int :: 0 <= j && j <= rangeindex ==> PlainInput(tx.Inputs[j])
-//@   loop 1 invariant PlainInputs(&tx.Transaction)
-//@   loop 1 invariant forall j int :: 0 <= j && j <= rangeindex ==> !NodeKind(tx.Outputs[j].Type)
+//@ -- (*SignedTransaction).TransactionType: contract merged into zz_contracts_c28_verif.go (properties C28, C05)
 
 //@ spec NodeKind(t mathint) bool = t == OutputTypeNodePledge || t == OutputTypeNodeAccept || t == OutputTypeNodeRemove
 //@ spec PlainInput(in *Input) bool = in.Mint == nil && in.Deposit == nil && isnil(in.Genesis)
@@ -61,6 +50,8 @@ package common
 //@   modifies nothing
 //@   ensures val(v) >= 0
 //@   ensures x == ExtraStoragePriceStep ==> val(v) == 10000
+//@   ensures x == "89.87671232" ==> val(v) == 8987671232   -- C25: the amount of the last legacy mint batch (kernel/mint.go lastMintDistribution)
+//@   ensures [c17-decode] val(v) == AmountOfVal(kvstr(x)) -- C17: deterministic in the text (codec pair with Integer.String, zz_contracts_c17_verif.go)
 
 //@ assume func NewInteger
 //@   modifies nothing
@@ -70,6 +61,7 @@ package common
 //@ func (x Integer) String
 //@   property C05
 //@   modifies nothing
+//@   assumes [c17-encode] val(x) >= 0 ==> AmountOfVal(kvstr(result)) == val(x) -- C17: ASSUMED codec pair with NewIntegerFromString (zz_contracts_c17_verif.go)
 
 // ───────────── validation.go ─────────────
 
@@ -103,6 +95,11 @@ package common
 //@ uninterp LedgerOutCount(s any, h crypto.Hash) mathint
 //@ uninterp LedgerOutType(s any, h crypto.Hash, i mathint) mathint
 //@ uninterp CustodianGenesis(s any) mathint
+//@ uninterp LedgerFinalized(s any, h crypto.Hash) bool
+//@ uninterp LedgerHasAsset(s any, id crypto.Hash) bool
+//@ uninterp LedgerBalance(s any, id crypto.Hash) mathint
+//@ uninterp LedgerAssetChain(s any, id crypto.Hash) crypto.Hash
+//@ uninterp LedgerAssetKey(s any, id crypto.Hash) string
 
 //@ spec CustodianKeysUnique(ns []*CustodianNode) bool = forall i, j int :: 0 <= i && i < j && j < len(ns) ==> ns[i].Custodian.String() != ns[j].Custodian.String()
 //@ spec KeysNonNil(ks []*crypto.Key) bool = forall k int :: 0 <= k && k < len(ks) ==> ks[k] != nil
@@ -126,6 +123,7 @@ package common
 //@ assume func (s TransactionReader) ReadTransaction(hash)
 //@   modifies nothing
 //@   ensures [S3-tx-found] err == nil && LedgerHasTx(recv, hash) ==> result0 != nil
+//@   ensures [S13-finalized] err == nil && result0 != nil && result1 != "" ==> LedgerFinalized(recv, hash) -- C16: the second result is the hex of the FINALIZATION record, "" when there is none (storage.readTransactionAndFinalization, verified: [not-finalized])
 //@   ensures [S4-tx-wf] err == nil && result0 != nil ==> StoredTxOK(result0)
 //@   ensures [S4b-tx-decoded] err == nil && result0 != nil ==> TxPayloadOK(&result0.SignedTransaction.Transaction) -- stored transactions were decoded from bytes (C06: DecodedTx)
 //@   ensures [S5-tx-ledger] err == nil && result0 != nil ==> len(result0.Outputs) == LedgerOutCount(recv, hash) &&
@@ -145,14 +143,21 @@ package common
 //@   ensures [S7-custodian-exists] err == nil && ts >= CustodianGenesis(recv) ==> result0 != nil
 //@   ensures [S8-custodian-wf] err == nil && result0 != nil ==> result0.Custodian != nil && (forall i int :: 0 <= i && i < len(result0.Nodes) ==> result0.Nodes[i] != nil)
 //@   ensures [S10-custodian-unique] err == nil && result0 != nil ==> CustodianKeysUnique(result0.Nodes)
+//@   ensures [S11-custodian-named] err == nil ==> result0 == CurrentCustodian(recv, ts) -- C34: names the record the store answers with (zz_contracts_c34_verif.go)
 //@ assume func (s AssetReader) ReadAssetWithBalance(id)
 //@   modifies nothing
 //@   ensures [S9-balance] err == nil && result0 != nil ==> val(result1) >= 0
+//@   -- C16: the asset record and the recorded total as functions of the ledger state (storage.(*BadgerStore).ReadAssetWithBalance is verified
+//@   -- against the T-KV model: it returns exactly the ASSETTOTAL value of the committed state; storage/zz_contracts_c17_verif.go [balance])
+//@   ensures [S11-asset] err == nil ==> (result0 != nil <==> LedgerHasAsset(recv, id))
+//@   ensures [S12-total] err == nil && result0 != nil ==> val(result1) == LedgerBalance(recv, id) && result0.Chain == LedgerAssetChain(recv, id) && result0.AssetKey == LedgerAssetKey(recv, id)
 
 //@ func validateReferences
-//@   property C05
+//@   property C05, C16
 //@   requires tx != nil && store != nil
 //@   modifies nothing
+//@   ensures [c16-refs-final] err == nil ==> forall i int :: 0 <= i && i < len(tx.References) ==> LedgerFinalized(store, tx.References[i]) -- C16: ValidatePost of a withdrawal claim: its reference is stored AND finalized (what storage.writeWithdrawalClaim needs: ClaimPre)
+//@   loop 0 invariant [c16] forall j int :: 0 <= j && j <= rangeindex ==> LedgerFinalized(store, tx.References[j])
 
 //@ func validateUTXO
 //@   property C05, C02
@@ -379,6 +384,7 @@ package common
 //@   property C05
 //@   modifies nothing
 //@   ensures val(result) >= 0
+//@   assumes [c17-table] val(result) == CapacityOf(id) -- C17: a deterministic function of id (switch over constants); ASSUMED, see zz_contracts_c17_verif.go
 
 //@ func (a *Asset) Verify
 //@   property C05
@@ -386,9 +392,13 @@ package common
 //@   modifies nothing
 
 //@ func (tx *Transaction) verifyDepositData
-//@   property C05
+//@   property C05, C16
 //@   requires tx != nil && store != nil && len(tx.Inputs) >= 1 && tx.Inputs[0] != nil && tx.Inputs[0].Deposit != nil
 //@   modifies nothing
+//@   -- C16: ValidatePost of a deposit, as far as the store sees it (what an accepted deposit guarantees about the ledger state it was validated on)
+//@   ensures [c16-amount] err == nil ==> val(tx.Inputs[0].Deposit.Amount) > 0
+//@   ensures [c16-capacity] err == nil && LedgerHasAsset(store, tx.Asset) ==> LedgerBalance(store, tx.Asset) + val(tx.Inputs[0].Deposit.Amount) < CapacityOf(tx.Asset)
+//@   ensures [c16-asset] err == nil && LedgerHasAsset(store, tx.Asset) ==> LedgerAssetChain(store, tx.Asset) == tx.Inputs[0].Deposit.Chain && LedgerAssetKey(store, tx.Asset) == tx.Inputs[0].Deposit.AssetKey
 
 //@ func (tx *SignedTransaction) validateDeposit
 //@   property C05, C01
@@ -444,34 +454,12 @@ package common
 
 // ───────────── custodian.go ─────────────
 
-//@ func (cn *CustodianNode) validate
-//@   property C05
-//@   requires cn != nil && len(cn.Extra) == custodianNodeExtraSize
-//@   modifies nothing
+//@ -- func (cn *CustodianNode) validate: contract in zz_contracts_c34_verif.go (properties C34, C05)
 
-//@ func parseCustodianNode
-//@   property C05
-//@   modifies nothing
-//@   ensures err == nil ==> result0 != nil
+//@ -- func parseCustodianNode: contract in zz_contracts_c34_verif.go (properties C34, C05)
 
-//@ func ParseCustodianUpdateNodesExtra$1
-//@   property C05
-//@   requires (forall k int :: 0 <= k && k < len(nodes) ==> nodes[k] != nil) && 0 <= i && i < len(nodes) && 0 <= j && j < len(nodes)
-//@   pure
-//@   ensures result <==> lexlt(nodes[i].Custodian.PublicSpendKey, nodes[j].Custodian.PublicSpendKey)
+//@ -- func ParseCustodianUpdateNodesExtra$1: contract in zz_contracts_c34_verif.go (properties C34, C05)
 
-//@ func ParseCustodianUpdateNodesExtra
-//@   property C05
-//@   modifies nothing
-//@   ensures [ok] err == nil ==> result0 != nil && result0.Custodian != nil && result0.Signature != nil && len(extra) >= 64 + custodianNodeExtraSize * custodianNodesMinimumCount + 64 &&
-//@       (forall k int :: 0 <= k && k < len(result0.Nodes) ==> result0.Nodes[k] != nil)
-//@   loop 0 invariant forall k int :: 0 <= k && k <= rangeindex ==> nodes[k] != nil
-//@   loop 1 invariant isnil(sortedExtra) || fresh(sortedExtra)
+//@ -- func ParseCustodianUpdateNodesExtra: contract in zz_contracts_c34_verif.go (properties C34, C05)
 
-//@ func (tx *Transaction) validateCustodianUpdateNodes
-//@   property C05
-//@   requires tx != nil && store != nil && OutputsOK(tx)
-//@   modifies nothing
-//@   loop 0 invariant len(filter) == rangeindex + 1
-//@   loop 0 invariant forall j int :: rangeindex < j && j < len(prev.Nodes) ==> !has(filter, prev.Nodes[j].Custodian.String())
-//@   loop 1 invariant val(total) >= 0
+//@ -- func (tx *Transaction) validateCustodianUpdateNodes: contract in zz_contracts_c34_verif.go (properties C34, C05)
